@@ -126,6 +126,9 @@ func (b *builder) read(file string, end, length int64) {
 	b.c.Ops = append(b.c.Ops, hop{Kind: "read", T: b.t, File: vh.Hex([]byte(file)), Endpos: end, Length: length})
 }
 
+func (b *builder) files() { b.c.Ops = append(b.c.Ops, hop{Kind: "files", T: b.t}) }
+func (b *builder) path()  { b.c.Ops = append(b.c.Ops, hop{Kind: "path", T: b.t}) }
+
 func (b *builder) randCfg() {
 	r := b.r
 	b.cfg(r.Chance(75), r.PickInt([]int{-1, 0, 1, 2, 7, 7, 30}), r.PickInt([]int{-1, 0, 1, 10, 10, 60}), r.PickStr(levelStrs))
@@ -784,6 +787,185 @@ func genFullTable(r *vh.Rng, seq *int) *hcase {
 		e := ents[len(ents)-1-r.Intn(30)]
 		emit(e)
 		emit(e)
+	}
+	return c
+}
+
+// the id table is FULL and a RESIDENT id is logged again after its interval (an update of a known
+// key at capacity): nothing may be forgotten by that.  Time stamps are mixed: a group of early
+// ids, of which a part is logged again later (fresh stamp, but still the eldest places), then
+// fillers up to capacity (+k).  Rounds inside the interval of the fresh stamps:
+//   R  one of the early ids whose interval is over is logged again (written; refreshes a resident id),
+//   E  the eldest resident ids with a fresh stamp are repeated (must be suppressed),
+//   N  a new id (forgets exactly the eldest), then the forgotten id (written) and the new eldest (suppressed),
+//   M  a filler from the middle / the newest end (suppressed),
+// and the whole again after another interval.  Every decision is compared with the model and with
+// the specified table of direct().
+func genRefreshFull(r *vh.Rng, seq *int) *hcase {
+	c, b := newCase(r, "refreshfull", seq)
+	c.Level = 0
+	iv := r.PickInt([]int{10, 10, 60})
+	b.cfg(true, 7, iv, "debug")
+	capN := idCacheCap
+	salt := r.Intn(1000)
+	type ent struct{ m, id, msg string }
+	mk := func(n int) ent {
+		m := r.PickStr([]string{"errorf", "warnf", "infof", "printf", "println", "error"})
+		if m == "printf" || m == "println" {
+			return ent{m, fmt.Sprintf("R%d-%d", salt, n), "explicit id"}
+		}
+		return ent{m, "", fmt.Sprintf("r%03d%06d", salt, n) + r.PickStr([]string{"", " tail"})}
+	}
+	emit := func(e ent) { b.log(e.m, e.id, e.msg) }
+	// generator-side table (insertion order, known id keeps its place) to aim the rounds
+	var order []int
+	stamp := map[int]int64{}
+	var ents []ent
+	put := func(k int) {
+		if _, ok := stamp[k]; !ok {
+			for len(order) >= capN {
+				delete(stamp, order[0])
+				order = order[1:]
+			}
+			order = append(order, k)
+		}
+		stamp[k] = b.t
+	}
+	fresh := func(k int) bool { t, ok := stamp[k]; return ok && b.t < t+int64(iv)*1000 }
+	log := func(k int) {
+		emit(ents[k])
+		if !fresh(k) {
+			put(k)
+		}
+	}
+	newID := func() int { ents = append(ents, mk(len(ents))); return len(ents) - 1 }
+	g := 12 + r.Intn(50)
+	for i := 0; i < g; i++ {
+		log(newID())
+	}
+	b.adv(int64(iv)*1000 + int64(r.Intn(2000)))
+	for i := 0; i < g; i++ { // part of the early ids again: fresh stamp, eldest place
+		if r.Chance(50) || i == 0 {
+			log(i)
+		}
+	}
+	total := capN + r.PickInt([]int{0, 0, 0, 1, 2, 5})
+	for len(ents) < total {
+		log(newID())
+		if len(ents)%211 == 0 {
+			b.adv(1)
+		}
+	}
+	for phase := 0; phase < 2; phase++ {
+		b.adv(int64(500 + r.Intn(1500)))
+		for round := 0; round < 25+r.Intn(25); round++ {
+			switch x := r.Intn(10); {
+			case x < 4: // R: a resident id whose interval is over
+				var due []int
+				for _, k := range order[:min(len(order), g+10)] {
+					if !fresh(k) {
+						due = append(due, k)
+					}
+				}
+				if len(due) == 0 {
+					k := order[len(order)/2+r.Intn(len(order)/2)]
+					log(k)
+					break
+				}
+				log(due[r.Intn(len(due))])
+				log(order[0])
+				if r.Chance(50) {
+					log(order[r.Intn(min(len(order), 6))])
+				}
+			case x < 6: // E: the eldest places
+				log(order[r.Intn(min(len(order), 8))])
+			case x < 8: // N: a new id, the id it made the table forget, the new eldest
+				old := order[0]
+				log(newID())
+				if r.Chance(60) {
+					log(old)
+				}
+				log(order[0])
+			default: // M
+				log(order[len(order)-1-r.Intn(len(order)/2)])
+			}
+			if r.Chance(20) {
+				b.adv(int64(r.Intn(300)))
+			}
+		}
+		b.adv(int64(iv)*1000 + int64(r.Intn(3)) - 1) // the second pass: around the end of the interval
+	}
+	return c
+}
+
+
+// GetLogFiles / GetLogFilePath: directories with the logger's own dated files, look-alikes (other
+// object names, 7- and 9-byte date parts, a second dot, no dot, directories), the hook log, and
+// — in part of the histories — more than 100 listable files (the listing stops at 100, in directory
+// order); the listing is taken before and after log calls and cycles (the open file's size grows,
+// pruned files disappear), and listed names are passed to Read.
+func genFiles(r *vh.Rng, seq *int) *hcase {
+	c, b := newCase(r, "files", seq)
+	c.Level = r.PickInt([]int{0, 1, 2})
+	b.seeds(r.Chance(60))
+	id, on := c.LogID, c.Oname
+	u := unitOf(c.T0)
+	have := map[string]bool{}
+	for _, s := range c.Seeds {
+		have[s.Name] = true
+	}
+	add := func(name string) {
+		if !have[name] {
+			have[name] = true
+			c.Seeds = append(c.Seeds, seed{Name: name, Content: content(r)})
+		}
+	}
+	if r.Chance(70) {
+		add("whatap-hook.log")
+	}
+	add(id + "-" + on + "-" + dayStr(u-1) + ".log.gz")
+	add(id + "-" + on + "-" + dayStr(u-2) + ".1.log")
+	add(id + "-" + on + "-" + dayStr(u-3) + ".txt")
+	add(id + "-" + on + "-abcdefgh.log")
+	add(id + "-" + on + "x-" + dayStr(u-1) + ".log")
+	add(id + "-" + on + "-" + dayStr(u-1))
+	if r.Chance(45) { // around the limit of 100 entries
+		n := r.PickInt([]int{92, 97, 98, 99, 100, 101, 104, 130})
+		for k := 0; k < n; k++ {
+			add(id + "-" + on + "-" + dayStr(u-10-int64(k)) + r.PickStr([]string{".log", ".log", ".log.1", ".txt"}))
+		}
+	}
+	var listable []string
+	for n := range have {
+		listable = append(listable, n)
+	}
+	sort.Strings(listable)
+	b.files()
+	b.path()
+	for round := 0; round < 2+r.Intn(3); round++ {
+		for k := r.Intn(4); k > 0; k-- {
+			b.randLog()
+			b.step()
+		}
+		b.files()
+		switch r.Intn(4) {
+		case 0:
+			b.toMidnight(r.Pick64([]int64{0, 1, 5000}))
+			b.proc()
+			b.path()
+		case 1:
+			b.adv(60001)
+			b.proc()
+		case 2:
+			b.cfg(r.Chance(60), r.PickInt([]int{0, 1, 7}), 10, "info")
+			b.adv(60001)
+			b.proc()
+			b.path()
+		}
+		b.files()
+		if len(listable) > 0 {
+			b.read(listable[r.Intn(len(listable))], r.Pick64([]int64{-1, 0, 5, 100}), r.Pick64([]int64{1, 10, 1024}))
+		}
 	}
 	return c
 }
